@@ -207,15 +207,20 @@ impl Journal {
 
         assert_eq!(&tdns_schema, "tdns_schema");
 
-        let version: i64 = conn.query_row(
+        let version = conn.query_row(
             "SELECT version
                                             \
                                                 FROM tdns_schema",
             [],
             |row| row.get(0),
-        )?;
+        );
 
-        Ok(version)
+        match version {
+            Ok(version) => Ok(version),
+            // the process stopped between creating the table and inserting its only row
+            Err(rusqlite::Error::QueryReturnedNoRows) => Ok(-1),
+            Err(err) => Err(err.into()),
+        }
     }
 
     /// update the schema version
@@ -252,7 +257,7 @@ impl Journal {
     /// initial schema, include the tdns_schema table for tracking the Journal version
     fn init_up(&self) -> Result<i64, PersistenceError> {
         let count = self.conn.lock().expect("conn poisoned").execute(
-            "CREATE TABLE tdns_schema (
+            "CREATE TABLE IF NOT EXISTS tdns_schema (
                                           \
                                             version INTEGER NOT NULL
                                         \
@@ -278,7 +283,7 @@ impl Journal {
     fn records_up(&self) -> Result<i64, PersistenceError> {
         // we'll be using rowid for our primary key, basically: `rowid INTEGER PRIMARY KEY ASC`
         let count = self.conn.lock().expect("conn poisoned").execute(
-            "CREATE TABLE records (
+            "CREATE TABLE IF NOT EXISTS records (
                                           \
                                             client_id      INTEGER NOT NULL,
                                           \
@@ -291,8 +296,9 @@ impl Journal {
                                             )",
             [],
         )?;
-        //
-        assert_eq!(count, 1);
+        // the count reported for DDL is the one of the last INSERT/UPDATE on this connection (the
+        //  version row when the schema is created in one go, nothing when set-up resumes here)
+        debug_assert!(count <= 1);
 
         Ok(1)
     }
